@@ -1,4 +1,6 @@
-//! C16: text, comparison and range commands compute the documented function (one unit: bytes).
+//! C16: text, comparison, case-mapping, arithmetic and range commands compute the documented
+//! function (one unit: bytes).  Case tables / calc helpers: c16ext.rs.
+use super::c16ext as x;
 use crate::rng::Rng;
 use crate::sdkenv::*;
 use crate::wire::*;
@@ -235,7 +237,6 @@ fn domain(cmd: &str, args: &[String]) -> bool {
             // either an error case, or both plain decimals of at most 15 digits
             !(num(&args[0]) && num(&args[1])) || (small_dec(&args[0]).is_some() && small_dec(&args[1]).is_some())
         }
-        "uppercase" | "lowercase" => args.is_empty() || args[0].is_ascii(),
         _ => true,
     }
 }
@@ -243,6 +244,35 @@ fn case_of(cmd: &str, args: Vec<String>, tag: &'static str) -> Case {
     let d = domain(cmd, &args);
     let nontrivial = args.iter().any(|a| !a.is_empty());
     Case { req: mk(cmd, &args), in_domain: d, nontrivial, tags: vec![tag, if args.iter().any(|a| !a.is_ascii()) { "multi-byte" } else { "ascii" }] }
+}
+/// run the real `calc`: Ok(printed text) | Err(()) for the error result
+fn run_calc(args: &[String]) -> Result<String, String> {
+    let mut ctx = sdk_context();
+    let written = set_args(&mut ctx, args);
+    match run_one(&mut ctx, "calc", written, Some("out".into())).0 {
+        CommandResult::Continue(Some(v)) => Ok(v),
+        CommandResult::Error(_) => Err("ERR".into()),
+        other => Err(format!("odd {}", enc_str(&format!("{:?}", other)))),
+    }
+}
+fn calc_args(req: &str) -> Vec<String> {
+    dec_list(req.split(' ').nth(1).unwrap_or("[]")).unwrap_or_default()
+}
+fn calc_case(args: Vec<String>, tag: &'static str) -> Case {
+    let mut tags = vec!["calc", tag];
+    if let Some(e) = x::read_text(&args.join(" ")) {
+        match x::eval(&e) {
+            Err(()) => tags.push("calc:i64-overflow"),
+            Ok(ev) => {
+                let v = ev.v.f();
+                tags.push(if !v.is_finite() { "calc:non-finite" } else if v.abs() >= 9.3e18 { "calc:beyond-2^63" } else if v.abs() >= 9.1e15 { "calc:beyond-2^53" } else if v == 0.0 { "calc:zero" } else if v.fract() != 0.0 { "calc:fraction" } else { "calc:whole" });
+                if v < 0.0 {
+                    tags.push("calc:negative");
+                }
+            }
+        }
+    }
+    Case { req: format!("calc {}", enc_list(&args)), in_domain: true, nontrivial: !args.is_empty(), tags }
 }
 fn tag_of(cmd: &str) -> &'static str {
     TEXT2.iter().chain(["range", "less_than", "greater_than"].iter()).find(|c| **c == cmd).copied().unwrap_or("other")
@@ -253,7 +283,7 @@ impl Prop for C16Prop {
         "C16"
     }
     fn rule(&self) -> &'static str {
-        "fixed: substring over 8 texts (ASCII, multi-byte, empty) x all index pairs in [-2,len+2]^2, all single indexes in [-len-2,len+2], 30 integer spellings; every two-text command over 7x7 texts incl. empty and needle longer than haystack; every command with 0..3 arguments; 44 float spellings squared through less_than/greater_than; range over 30 integer spellings. Random: texts over {a,b,space,comma,e-acute,CJK,emoji,A,z,tab} (0..8 scalars), needles cut from the haystack / longer than it / empty / random, indexes in [-2,len+2] and odd integer spellings, decimals with sign, fraction, up to 15 digits. All through the real SDK commands (arguments passed by variable). Non-trivial = some argument non-empty; distinct = distinct request. Index equal to the length (substring), non-ASCII case mapping and floats beyond 15-digit decimals are outside the domain."
+        "fixed: substring over 8 texts (ASCII, multi-byte, empty) x all index pairs in [-2,len+2]^2, all single indexes in [-len-2,len+2], 30 integer spellings; every two-text command over 7x7 texts incl. empty and needle longer than haystack; every command with 0..3 arguments; 44 float spellings squared through less_than/greater_than; range over 30 integer spellings. Random: texts over {a,b,space,comma,e-acute,CJK,emoji,A,z,tab} (0..8 scalars), needles cut from the haystack / longer than it / empty / random, indexes in [-2,len+2] and odd integer spellings, decimals with sign, fraction, up to 15 digits. All through the real SDK commands (arguments passed by variable). Non-trivial = some argument non-empty; distinct = distinct request. uppercase/lowercase over ALL of Unicode: every character with a case mapping (in chunks, every run), Greek words with capital sigma in every position and context (cased / case-ignorable / uncased neighbours, combining marks), multi-character mappings (dotted I, sharp s, n-apostrophe, ligatures, title-case digraphs), 4-byte scripts, long texts; the four case tables of the model are compared with the installed toolchain over all code points (casetab). calc: expressions over integer and decimal literals, + - *, unary minus, parentheses, ^ with a literal exponent, depth <= 4, three in ten with values beyond 2^53 / 2^63 (powers, products of float literals), negative, zero and fractional results, i64 overflow of integer-typed sub-expressions (error result); handed to the real command as one argument per token / one argument / arbitrary cuts; verdicts: exact class - the printed decimal read EXACTLY as a fraction equals the rational value; otherwise within 1e-9 relative of the typed f64 evaluation and within a rigorous rounding bound of the exact i128 rational value. Index equal to the length (substring) and floats beyond 15-digit decimals (less_than/greater_than) are outside the domain."
     }
     fn budget(&self, tier: Tier) -> usize {
         match tier {
@@ -326,10 +356,55 @@ impl Prop for C16Prop {
                 out.push(case_of(c, vec![s(t)], "single-text"));
             }
         }
+        // the model's case tables against the toolchain, over all code points
+        for w in ["lower", "upper", "cased", "ignorable"] {
+            out.push(Case { req: format!("casetab {}", w), in_domain: true, nontrivial: true, tags: vec!["unicode-case-table"] });
+        }
+        for t in x::SIGMA_TEXTS {
+            for c in ["lowercase", "uppercase"] {
+                out.push(case_of(c, vec![s(t)], "final-sigma"));
+            }
+        }
+        for ch in x::CASE_POOL {
+            for c in ["lowercase", "uppercase"] {
+                out.push(case_of(c, vec![ch.to_string()], "case-special"));
+                out.push(case_of(c, vec![format!("a{}Σ{}b", ch, ch)], "case-special"));
+                out.push(case_of(c, vec![format!("{}Σ{}", ch, ch)], "case-special"));
+            }
+        }
+        // every character that has a case mapping, in chunks (alone and after a capital sigma)
+        for chunk in x::changed_chars().chunks(64) {
+            for c in ["lowercase", "uppercase"] {
+                out.push(case_of(c, vec![chunk.iter().collect()], "case-all-mapped"));
+                out.push(case_of(c, vec![chunk.iter().flat_map(|ch| ['Σ', *ch, ' ']).collect()], "case-all-mapped"));
+            }
+        }
+        for t in [
+            "", "2 ^ 70", "2 ^ 63", "2 ^ 64", "0 - 2 ^ 63", "- 2 ^ 64", "2 ^ 53", "2 ^ 53 + 1", "10 ^ 21", "10 ^ 22", "1 + 2 * 3",
+            "( 1 + 2 ) * 3", "- 2 ^ 2", "( - 2 ) ^ 2", "2 * - 3", "2 - - 3", "- - 2", "1.5 * 4", "0.5 + 0.25", "0.1 + 0.2", "1 - 1",
+            "0.5 - 0.5", "- 0.5 * 0", "0 * - 1", "9223372036854775807 + 1", "9223372036854775807 + 1.0", "9223372036854775807 * 2",
+            "- 9223372036854775807 - 1", "- ( 0 - 9223372036854775807 - 1 )", "3037000500 * 3037000500", "3037000499 * 3037000499",
+            "9223372036854775808", "9223372036854775808 - 1", "4294967296.0 * 4294967296.0", "4294967296 * 4294967296.0 * 4",
+            "1.5 ^ 3", "0 ^ 0", "0.0 ^ 0", "2 ^ 0", "( 2 ^ 3 ) ^ 2", "2 ^ ( 3 )", "007 + 1", "1000000 * 1000000 * 1000000",
+            "1000000 * 1000000 * 1000000 * 10", "1000000.0 * 1000000 * 1000000 * 10", "123456.789 * 1000", "3 * 0.1", "2.5 ^ 40",
+            "9007199254740993 - 1", "9007199254740993.0 - 1", "( 0.1 + 0.2 ) - 0.3", "( 2 ^ 40 + 0.1 - 2 ^ 40 ) * 2 ^ 40",
+        ] {
+            let toks: Vec<String> = t.split(' ').filter(|w| !w.is_empty()).map(s).collect();
+            out.push(calc_case(toks.clone(), "calc-fixed"));
+            if !toks.is_empty() {
+                out.push(calc_case(vec![toks.join(" ")], "calc-fixed"));
+                out.push(calc_case(vec![toks.join("")], "calc-fixed"));
+            }
+        }
         out
     }
     fn generate(&self, rng: &mut Rng, _tier: Tier) -> Case {
-        let k = rng.below(24);
+        let k = rng.below(31);
+        if k >= 27 {
+            let e = x::gen_calc(rng);
+            let toks = x::render_random(&e, rng);
+            return calc_case(x::to_args(&toks, rng), "calc-random");
+        }
         let hay = gen_str(rng, 8);
         let len = hay.len() as i64;
         let (cmd, args): (&str, Vec<String>) = match k {
@@ -349,6 +424,7 @@ impl Prop for C16Prop {
             17 => ("concat", (0..rng.below(4)).map(|_| gen_str(rng, 3)).collect()),
             18 => (*rng.pick(&["trim", "trim_start", "trim_end"]), vec![gen_ws_str(rng)]),
             19 => (*rng.pick(&["uppercase", "lowercase"]), vec![(0..rng.below(8)).map(|_| (32 + rng.below(95) as u8) as char).collect()]),
+            24 | 25 | 26 => (*rng.pick(&["uppercase", "lowercase"]), vec![x::gen_case_text(rng)]),
             20 => {
                 // never ask for an astronomically long array
                 let (x, y) = (gen_int(rng, 6), gen_int(rng, 6));
@@ -365,12 +441,55 @@ impl Prop for C16Prop {
         case_of(cmd, args, tag_of(cmd))
     }
     fn run_impl(&self, req: &str, model_out: &str) -> String {
+        if let Some(which) = req.strip_prefix("casetab ") {
+            return x::casetab_of_toolchain(which);
+        }
+        if req.starts_with("calc ") {
+            let args = calc_args(req);
+            return match (run_calc(&args), model_out) {
+                (Err(e), _) => e,
+                // exact class: the printed decimal, read exactly
+                (Ok(text), m) if m.starts_with("Q ") => match x::parse_decimal_exact(&text) {
+                    Some(q) => format!("Q {}/{}", q.n, q.d),
+                    None => format!("Q-BAD {}", enc_str(&text)),
+                },
+                (Ok(text), "APPROX") => match x::read_text(&args.join(" ")).map(|e| x::eval(&e)) {
+                    Some(Ok(ev)) if x::approx_ok(&ev, &text) => "APPROX".into(),
+                    _ => format!("APPROX-BAD {}", enc_str(&text)),
+                },
+                (Ok(_), "unmodelled") => "unmodelled".into(),
+                (Ok(text), _) => format!("ok {}", enc_str(&text)),
+            };
+        }
         let (cmd, args) = parse_req(req);
         let r = run_cmd(&cmd, &args);
         // declared outside the model: only the error / no-error classification is compared
         if model_out == "unmodelled" && r.starts_with("ok ") { "unmodelled".into() } else { r }
     }
     fn relation(&self, req: &str, _m: &str, imp: &str) -> Option<bool> {
+        if req.starts_with("casetab ") {
+            return None;
+        }
+        if req.starts_with("calc ") {
+            // ordinary arithmetic, computed here (independent of the model)
+            let e = x::read_text(&calc_args(req).join(" "))?;
+            return match x::eval(&e) {
+                Err(()) => Some(imp == "ERR"),
+                Ok(ev) => {
+                    if let Some(f) = imp.strip_prefix("Q ") {
+                        let (n, d) = f.split_once('/')?;
+                        let q = ev.q?;
+                        Some(n.parse::<i128>().ok()? == q.n && d.parse::<i128>().ok()? == q.d)
+                    } else if imp == "APPROX" {
+                        Some(true)
+                    } else if imp == "unmodelled" {
+                        None
+                    } else {
+                        Some(false)
+                    }
+                }
+            };
+        }
         let (cmd, args) = parse_req(req);
         let a = |i: usize| args[i].as_bytes();
         match (cmd.as_str(), args.len()) {
@@ -423,6 +542,9 @@ impl Prop for C16Prop {
                 }
                 Some(ok_bytes(imp)? == out)
             }
+            // what the plain string operation of the standard library returns
+            ("lowercase", 1..) => Some(ok_bytes(imp)? == args[0].to_lowercase().into_bytes()),
+            ("uppercase", 1..) => Some(ok_bytes(imp)? == args[0].to_uppercase().into_bytes()),
             ("trim" | "trim_start" | "trim_end", 1..) => {
                 // independent reference: strip by the 25-scalar White_Space table
                 let ws = |c: &char| crate::pools::WS.contains(c);
@@ -482,6 +604,15 @@ impl Prop for C16Prop {
         }
     }
     fn shrink(&self, req: &str) -> Vec<String> {
+        if req.starts_with("casetab ") {
+            return vec![];
+        }
+        if req.starts_with("calc ") {
+            return match x::read_text(&calc_args(req).join(" ")) {
+                Some(e) => x::smaller(&e).iter().map(|s| format!("calc {}", enc_list(&x::render_min(s)))).collect(),
+                None => vec![],
+            };
+        }
         let (cmd, args) = parse_req(req);
         let mut out = vec![];
         for i in 0..args.len() {
@@ -495,6 +626,12 @@ impl Prop for C16Prop {
         out
     }
     fn describe(&self, req: &str) -> String {
+        if req.starts_with("casetab ") {
+            return req.to_string();
+        }
+        if req.starts_with("calc ") {
+            return format!("calc {:?}", calc_args(req));
+        }
         let (cmd, args) = parse_req(req);
         format!("{} {:?}", cmd, args)
     }
